@@ -388,7 +388,7 @@ def history(draw):
     # plain index lists, or runs of neighbouring indices (versions of one id are neighbours in the pool) in either direction
     runs = st.builds(lambda a, n, rev: list(range(a, a + n))[::-1 if rev else 1], st.integers(0, 40), st.integers(2, 4), st.booleans())
     items = st.one_of(st.lists(idx, min_size=1, max_size=4), runs)
-    sub = st.lists(st.sampled_from(["object", "dict", "dict", "json"]), min_size=1, max_size=3)
+    sub = st.lists(st.sampled_from(["object", "dict", "dict", "json", "bundle-dict", "bundle-object", "bundle-json"]), min_size=1, max_size=3)     # (a list "of any of the previously listed types": bundles too)
     form = st.sampled_from(FORMS)
     add_op = st.fixed_dictionaries({"op": st.just("add"), "form": form, "items": items, "sub": sub})
     ops = st.one_of(
